@@ -526,10 +526,10 @@ def expectedFacts : List FuncFacts :=
     { name := "ApplyMaskModule.forward", returns := 1, inputReturns := 0, stateWrites := 0, inplaceOnArgs := 0, ifs := 2, loops := 0 },
     { name := "ApplyZeroPadding.__call__", returns := 1, inputReturns := 0, stateWrites := 0, inplaceOnArgs := 0, ifs := 0, loops := 0 },
     { name := "CreateSamplingMask.__call__", returns := 1, inputReturns := 0, stateWrites := 0, inplaceOnArgs := 0, ifs := 6, loops := 2 },
-    { name := "ModuleWrapper.SubWrapper.__call__", returns := 1, inputReturns := 0, stateWrites := 0, inplaceOnArgs := 0, ifs := 6, loops := 2 },
+    { name := "ModuleWrapper.SubWrapper.__call__", returns := 1, inputReturns := 0, stateWrites := 0, inplaceOnArgs := 0, ifs := 4, loops := 2 },
     { name := "MRIModelEngine._forward_operator", returns := 1, inputReturns := 0, stateWrites := 0, inplaceOnArgs := 0, ifs := 0, loops := 0 },
     { name := "MRIModelEngine._backward_operator", returns := 1, inputReturns := 0, stateWrites := 0, inplaceOnArgs := 0, ifs := 0, loops := 0 },
-    { name := "MRILogLikelihood.forward", returns := 1, inputReturns := 0, stateWrites := 0, inplaceOnArgs := 0, ifs := 1, loops := 0 },
+    { name := "MRILogLikelihood.forward", returns := 1, inputReturns := 0, stateWrites := 0, inplaceOnArgs := 0, ifs := 2, loops := 0 },
     { name := "ConjGrad._A_star_op", returns := 1, inputReturns := 0, stateWrites := 0, inplaceOnArgs := 0, ifs := 0, loops := 0 } ]
 
 /-! ### masking sites outside `direct/nn` (data pipeline, SSL transforms, datasets) -/
